@@ -75,6 +75,7 @@ def x12n_document(param, src_file, fd_997, fd_html,
     #Get Map of Control Segments
     map_file = 'x12.control.00501.xml' if src.icvn == '00501' else 'x12.control.00401.xml'
     logger.debug('X12 control file: %s' % (map_file))
+    control_file = map_file
     control_map = pyx12.map_if.load_map_file(map_file, param, map_path)
     map_index_if = pyx12.map_index.map_index(map_path)
     node = control_map.getnodebypath('/ISA_LOOP/ISA')
@@ -106,6 +107,11 @@ def x12n_document(param, src_file, fd_997, fd_html,
             print('------- counters before --------')
             print((walker.counter._dict))
         if seg.get_seg_id() == 'ISA':
+            # Each interchange is checked against the control map of its own version
+            control_file_new = 'x12.control.00501.xml' if seg.get_value('ISA12') == '00501' else 'x12.control.00401.xml'
+            if control_file_new != control_file:
+                control_file = control_file_new
+                control_map = pyx12.map_if.load_map_file(control_file, param, map_path)
             node = control_map.getnodebypath('/ISA_LOOP/ISA')
             walker.forceWalkCounterToLoopStart('/ISA_LOOP', '/ISA_LOOP/ISA')
         elif seg.get_seg_id() == 'GS':
